@@ -30,9 +30,23 @@ func init() {
 				}
 			}
 			build := x.P.FnObj("server/packs.BuildInternalDocForServerSeq")
-			for _, c := range x.directCallers(build) {
-				ok, why := x.mustHold(c, "doc", "RW")
-				x.check(ok, "caller="+prog.FnName(c.Parent())+" of=BuildInternalDocForServerSeq doc(any)", x.pos(c), "rebuild under the document lock", "a document is rebuilt (and the snapshot cache populated) without the document lock: it can overlap a compaction and re-install a pre-compaction document: "+why)
+			entries := x.rebuildEntries()
+			isEntry := map[*types.Func]bool{}
+			for _, e := range entries {
+				isEntry[e] = true
+			}
+			if build != nil && !isEntry[build] {
+				entries = append(entries, build)
+				isEntry[build] = true
+			}
+			for _, e := range entries {
+				for _, c := range x.directCallers(e) {
+					if po, _ := c.Parent().Object().(*types.Func); po != nil && isEntry[po] {
+						continue // a wrapper calling the host
+					}
+					ok, why := x.mustHold(c, "doc", "RW")
+					x.check(ok, "caller="+prog.FnName(c.Parent())+" of="+e.Name()+" doc(any)", x.pos(c), "rebuild under the document lock", "a document is rebuilt (and the snapshot cache populated) without the document lock: it can overlap a compaction and re-install a pre-compaction document: "+why)
+				}
 			}
 			for _, m := range []string{"CreateSnapshotInfo", "CreateRevisionInfo"} {
 				obj := x.P.IfaceMethod(dbPkg + ".Database." + m)
